@@ -39,11 +39,19 @@ type Case struct {
 	// "mixed" (per height one of the three).
 	EmptyAs string `json:"empty_height_answer,omitempty"`
 	Seed    int64  `json:"seed"`
+	// Metrics: "" = the node counts into no-op metrics, "prometheus" = into real Prometheus collectors, built the way
+	// node/ builds them when instrumentation is switched on.
+	Metrics string `json:"metrics,omitempty"`
+	// Hang != "": the DA layer leaves the first listing ("listing") or the first chunk fetch ("chunk0") of height
+	// HangAt unanswered until the caller gives up (or hangCap passed), then answers normally. All genuine blobs of
+	// the case sit at HangAt.
+	Hang   string `json:"unanswered_call,omitempty"`
+	HangAt uint64 `json:"unanswered_call_height,omitempty"`
 }
 
 func (c Case) key() string {
 	b, _ := json.Marshal(c.Outcomes)
-	return fmt.Sprintf("s%d n%d big%d/%d e%s %s %s", c.Start, c.Heights, c.BigAt, c.BigN, c.EmptyAs, b, strings.Join(c.Layout, "|"))
+	return fmt.Sprintf("s%d n%d big%d/%d e%s m%s hang%s@%d %s %s", c.Start, c.Heights, c.BigAt, c.BigN, c.EmptyAs, c.Metrics, c.Hang, c.HangAt, b, strings.Join(c.Layout, "|"))
 }
 
 var errKinds = []string{"notfound", "future", "listerr", "chunkerr0", "chunkerr1", "chunkerr2"}
@@ -192,6 +200,9 @@ var (
 	stallTicks = 200
 	stallQuiet = 3 * time.Second
 	caseBudget = 90 * time.Second
+	// hangCap: an unanswered DA call ends by itself (with a time-out error of the DA client) after this long, for
+	// a scan that sets no deadline of its own
+	hangCap = 40 * time.Second
 )
 
 func parseOutcome(o string) world.RetrieveOutcome {
@@ -215,7 +226,7 @@ func runCase(r *vk.Run, p *world.Produced, c Case) {
 	rng := rand.New(rand.NewSource(c.Seed))
 	da := world.NewDADouble()
 	da.AutoAdvance = false
-	sp := &spy{DADouble: da}
+	sp := &spy{DADouble: da, hangKind: c.Hang, hangAt: c.HangAt, hangCap: hangCap}
 	// layout
 	last := c.Start + uint64(c.Heights)
 	first := c.Start
@@ -234,7 +245,7 @@ func runCase(r *vk.Run, p *world.Produced, c Case) {
 	var usable []uint64
 	for h := first; h <= last; h++ {
 		switch x := rng.Intn(8); {
-		case h == c.BigAt:
+		case h == c.BigAt || (c.Hang != "" && h == c.HangAt):
 		case x < 2:
 			kindOf[h] = "empty"
 		case x == 2:
@@ -247,6 +258,9 @@ func runCase(r *vk.Run, p *world.Produced, c Case) {
 	if len(usable) == 0 {
 		delete(kindOf, last)
 		usable = append(usable, last)
+	}
+	if c.Hang != "" {
+		usable = []uint64{c.HangAt}
 	}
 	perH := map[uint64][][]byte{}
 	spread := genuine
@@ -337,7 +351,12 @@ func runCase(r *vk.Run, p *world.Produced, c Case) {
 	r.Journal(c)
 	// DABlockTime is short: the harness ticks the scan itself, but a scan that paces itself by the DA block time
 	// must not be made to wait
-	n, err := world.NewNode(ctx, world.NodeOpts{Aggregator: false, DABlockTime: 20 * time.Millisecond, BlockTime: time.Hour, DAStartHeight: c.Start},
+	opts := world.NodeOpts{Aggregator: false, DABlockTime: 20 * time.Millisecond, BlockTime: time.Hour, DAStartHeight: c.Start}
+	if c.Metrics == "prometheus" {
+		opts.PrometheusNamespace = world.UniquePrometheusNamespace()
+		r.Count("cases_with_prometheus_metrics", 1)
+	}
+	n, err := world.NewNode(ctx, opts,
 		p.Keys, world.NewMemDS(world.NewImage()), world.NewExecDouble(), world.NewSeqDouble(), sp, nil)
 	if err != nil {
 		r.Violation("startup", err.Error(), c)
@@ -497,6 +516,16 @@ func runCase(r *vk.Run, p *world.Produced, c Case) {
 	if c.BigN > 0 && v.fetchedOK[c.BigAt] {
 		r.HitN("genuine-in-last-chunk-delivered", int64(len(tail)))
 	}
+	if c.Hang != "" {
+		// evidence that the call was really left unanswered until somebody gave up, and that the height was read
+		// completely afterwards
+		started, endedBy, took := sp.hangInfo()
+		if started && endedBy != "" && v.fetchedOK[c.HangAt] && len(miss) == 0 {
+			r.Hit("unanswered-call-height-read-afterwards")
+			r.Count("unanswered_call_ended_by_"+endedBy, 1)
+			r.Count("unanswered_call_ms", took.Milliseconds())
+		}
+	}
 	if len(miss) > 0 {
 		var parts []string
 		for i, w := range miss {
@@ -532,7 +561,7 @@ func runCase(r *vk.Run, p *world.Produced, c Case) {
 	r.Count("junk_blobs", int64(nJunk))
 	r.Count("events_emitted", int64(len(events)))
 	r.Count("events_not_matching_a_genuine_blob", int64(other))
-	r.Eval(c.key(), nJunk > 0 && nErr > 0, map[string]any{"start": c.Start, "outcomes": c.Outcomes, "layout": c.Layout, "empty_as": c.EmptyAs, "big": fmt.Sprintf("%d/%d", c.BigAt, c.BigN)})
+	r.Eval(c.key(), nJunk > 0 && (nErr > 0 || c.Hang != ""), map[string]any{"start": c.Start, "outcomes": c.Outcomes, "layout": c.Layout, "empty_as": c.EmptyAs, "big": fmt.Sprintf("%d/%d", c.BigAt, c.BigN), "metrics": c.Metrics, "unanswered_call": fmt.Sprintf("%s@%d", c.Hang, c.HangAt)})
 	r.FlushHits()
 }
 
@@ -640,8 +669,27 @@ func buildCases(r *vk.Run) []Case {
 			}
 		}
 	}
+	// every third case: the node counts into real Prometheus collectors (a label that was not declared, a
+	// collector registered twice ... panic there and nowhere else)
+	for i := range cases {
+		if i%3 == 0 {
+			cases[i].Metrics = "prometheus"
+		}
+	}
+	// long waits: one DA call for a height holding genuine blobs is left unanswered until the caller gives up,
+	// while the node keeps running; afterwards the DA layer answers normally
+	for k := 0; k < nHangCases(r); k++ {
+		c := Case{ID: len(cases), Start: starts[k%3], Heights: 3 + rng.Intn(3), Outcomes: map[uint64][]string{}, Seed: rng.Int63()}
+		c.Hang = []string{"listing", "chunk0"}[k%2]
+		c.HangAt = max(c.Start, 1) + uint64(rng.Intn(c.Heights))
+		c.EmptyAs = emptyModes[rng.Intn(len(emptyModes))]
+		cases = append(cases, c)
+	}
 	return cases
 }
+
+// nHangCases: unanswered listing and unanswered chunk fetch; thorough: each for every start height.
+func nHangCases(r *vk.Run) int { return r.N(2, 6) }
 
 func chains(ctx context.Context) ([]*world.Produced, error) {
 	keys := world.NewKeys("proposer")
@@ -691,9 +739,11 @@ func child(args []string) int {
 		cnt++
 		c := c
 		go func() {
-			sem <- res{}
+			if c.Hang == "" { // the long-wait cases only wait: they run beside the others
+				sem <- res{}
+				defer func() { <-sem }()
+			}
 			runCase(r, ps[c.ID%len(ps)], c)
-			<-sem
 			doneCh <- res{}
 		}()
 	}
@@ -708,7 +758,7 @@ func child(args []string) int {
 func Run(r *vk.Run) {
 	world.Silence()
 	maxLen := r.N(3, 4)
-	r.Rule = fmt.Sprintf("every sequence of fetch outcomes of length <= %d over {nothing here (ErrBlobNotFound | empty id list | nil result), from the future, listing error, error on chunk 0/1/2} scripted for a DA height before its real contents are served, plus runs of 10-13 failures, for start heights {0,1,17}; failures carry one of 7 (listing) / 11 (chunk fetch, incl. not-found and from-the-future identities) error identities; DA heights hold the genuine header and signed-data blobs of real chains (shuffled, several per height, repeated at other heights) mixed with junk (truncations at every length class, bit flips, absurd varint lengths, wrong message types, empty, random, concatenations, structured protobuf junk), some heights junk-only, some empty (answering ErrBlobNotFound, an empty id list or a nil result), one height with 230-250 ids, and heights with exactly %v ids whose genuine blobs sit in the last fetch chunk only; the real RetrieveLoop runs in child processes, the harness is the consumer of its events. Oracle on the DA call log and the scan cursor read at every DA call: a height is complete once a listing said it holds nothing or every listed id came back from a successful fetch; the cursor never stands above an incomplete height; a height that failed while incomplete is asked for again before a higher one is completed; at idle every height from the start to the DA head is complete; every blob byte-identical to a genuine one (the producer's own record, no decoder) at a completely fetched height is handed to sync. non-trivial = junk present and at least one scripted non-success outcome; distinct by (start, outcomes, layout)", maxLen, BigNs)
+	r.Rule = fmt.Sprintf("every sequence of fetch outcomes of length <= %d over {nothing here (ErrBlobNotFound | empty id list | nil result), from the future, listing error, error on chunk 0/1/2} scripted for a DA height before its real contents are served, plus runs of 10-13 failures, for start heights {0,1,17}; failures carry one of 7 (listing) / 11 (chunk fetch, incl. not-found and from-the-future identities) error identities; DA heights hold the genuine header and signed-data blobs of real chains (shuffled, several per height, repeated at other heights) mixed with junk (truncations at every length class, bit flips, absurd varint lengths, wrong message types, empty, random, concatenations, structured protobuf junk), some heights junk-only, some empty (answering ErrBlobNotFound, an empty id list or a nil result), one height with 230-250 ids, and heights with exactly %v ids whose genuine blobs sit in the last fetch chunk only; every third case runs the node with real Prometheus metrics (as node/ builds them with instrumentation on) instead of no-op metrics; plus long-wait cases: the first listing / the first chunk fetch of a height holding all genuine blobs is left unanswered until the caller gives up (or 40 s passed) while the node keeps running, then the DA layer answers normally; the real RetrieveLoop runs in child processes, the harness is the consumer of its events. Oracle on the DA call log and the scan cursor read at every DA call: a height is complete once a listing said it holds nothing or every listed id came back from a successful fetch; the cursor never stands above an incomplete height; a height that failed while incomplete is asked for again before a higher one is completed; at idle every height from the start to the DA head is complete; every blob byte-identical to a genuine one (the producer's own record, no decoder) at a completely fetched height is handed to sync. non-trivial = junk present and at least one scripted non-success outcome; distinct by (start, outcomes, layout)", maxLen, BigNs)
 	r.Assume("a stall is judged only logically: more than 200 consecutive ticks taken by the scan without any DA call (and 3 s without one); a case that does not reach the DA head within 90 s without that evidence is inconclusive")
 	cases := buildCases(r)
 	// (not marked exhaustive: the fault dimension is enumerated completely, the contents are sampled)
@@ -732,4 +782,5 @@ func Run(r *vk.Run) {
 	r.Require("holds-none-by-listing", int64(len(cases)/8))
 	r.Require("multi-chunk-height-fetched", int64(len(BigNs)))
 	r.Require("genuine-in-last-chunk-delivered", int64(len(BigNs)))
+	r.Require("unanswered-call-height-read-afterwards", int64(nHangCases(r)))
 }
